@@ -146,6 +146,12 @@ def _gen_chi2(g):
         if n - zero.sum() < (m + 1 if n > m else m):
             continue
         sq[zero] = 0.0
+        if g.get('zerorow') and n > m + 1:
+            # a template set that vanishes at a measured point (a model through the origin sampled at 0, a band-limited
+            # template): the point still counts - in chi2 and in the degrees of freedom
+            k = int(rs.randint(n))
+            A[k, :] = 0.0
+            sq[k] = max(sq[k], 0.5)
         if np.linalg.cond(A * sq[:, None]) < 1e3:
             return A, b, sq
     raise RuntimeError('generator: no well-conditioned system')
@@ -333,6 +339,8 @@ def _chi2(ctx, cases=None):
                                                    'signal': ctx.rng.choice([0.0, 1.0, 10.0, 1e3, 1e6, 1e8])}})
             if ctx.rng.random() < 0.2:
                 cases[-1]['gen']['adtype'] = 'float32'
+            if ctx.rng.random() < 0.15:
+                cases[-1]['gen']['zerorow'] = True
         # square full-rank systems (as many data as templates, every weight positive: dof 0, chi2 0, the solution of A x = b)
         for i in range(ctx.n(20, 400)):
             m = ctx.rng.choice([1, 2, 3, 4, 5])
